@@ -7,6 +7,8 @@ import (
 	"strings"
 
 	"golang.org/x/net/html"
+
+	"github.com/tsawler/tabula/htmldoc"
 )
 
 // ncxDocument represents an EPUB 2 NCX navigation document.
@@ -84,7 +86,7 @@ func (r *Reader) findNCX() *ManifestItem {
 
 // parseNavXHTML parses an EPUB 3 nav document (XHTML with nav element).
 func parseNavXHTML(content []byte) (*TableOfContents, error) {
-	doc, err := html.Parse(bytes.NewReader(content))
+	doc, err := htmldoc.ParseBounded(bytes.NewReader(content))
 	if err != nil {
 		return nil, err
 	}
